@@ -142,6 +142,8 @@ func (s *Set) getSiblingTemplate(templatePath, siblingPath string, cacheAfterPar
 		siblingDir := path.Dir(siblingPath)
 		templatePath = path.Join(siblingDir, templatePath)
 	}
+	// absolute names are taken as given above: clean them too so that the loader and cache only ever see canonical paths
+	templatePath = path.Clean(templatePath)
 	return s.getTemplate(templatePath, cacheAfterParsing)
 }
 
